@@ -25,7 +25,11 @@ import (
 )
 
 const childAddressSpace = 2 << 30 // RLIMIT_AS of the child
-const childTimeout = 6 * time.Second
+// watchdog: a mutant may burn this much CPU in the child (zeroing the largest
+// allocation the address-space limit admits costs well under a second); wall
+// time is only a backstop, the machine may be heavily loaded
+const childCPULimit = 10.0 // seconds
+const childWallLimit = 5 * time.Minute
 
 func TestMain(m *testing.M) {
 	if os.Getenv("WIRE_CHILD") == "1" {
@@ -248,23 +252,39 @@ func (c *child) run(data []byte) (reply string, fatal string, err error) {
 		_, e := io.ReadFull(from, b)
 		ch <- res{string(b), e}
 	}()
-	select {
-	case r := <-ch:
-		if r.err != nil {
-			_ = c.cmd.Wait()
-			why := firstLines(c.stderr.String(), "fatal error", "panic:", "signal")
-			c.cmd.Process.Kill()
-			c.to.Close()
-			c.from.Close()
-			c.cmd = nil
-			kind := "other: "
-			if strings.Contains(why, "out of memory") || strings.Contains(why, "cannot allocate memory") {
-				kind = "alloc: "
+	start := time.Now()
+	cpu0 := cpuSeconds(c.cmd.Process.Pid)
+	tick := time.NewTicker(200 * time.Millisecond)
+	defer tick.Stop()
+	var spent float64
+	for waiting := true; waiting; {
+		select {
+		case r := <-ch:
+			if r.err != nil {
+				_ = c.cmd.Wait()
+				why := firstLines(c.stderr.String(), "fatal error", "panic:", "signal")
+				c.cmd.Process.Kill()
+				c.to.Close()
+				c.from.Close()
+				c.cmd = nil
+				kind := "other: "
+				if strings.Contains(why, "out of memory") || strings.Contains(why, "cannot allocate memory") {
+					kind = "alloc: "
+				}
+				return "", kind + "process died: " + why, nil
 			}
-			return "", kind + "process died: " + why, nil
+			return r.s, "", nil
+		case <-tick.C:
+			spent = cpuSeconds(c.cmd.Process.Pid) - cpu0
+			if spent >= childCPULimit {
+				waiting = false
+			} else if time.Since(start) > childWallLimit {
+				c.stop()
+				return "", "", fmt.Errorf("child used %.1fs CPU in %v without answering (machine overloaded?)", spent, childWallLimit)
+			}
 		}
-		return r.s, "", nil
-	case <-time.After(childTimeout):
+	}
+	{
 		// how much memory has it touched? (a stalled giant allocation is being zeroed)
 		vsz, rss := statmMiB(c.cmd.Process.Pid)
 		// ask the runtime where it is, then kill
@@ -303,12 +323,12 @@ func (c *child) run(data []byte) (reply string, fatal string, err error) {
 		}
 		if kind == "other: " && !strings.Contains(dump, "goroutine ") {
 			// no stack dump: cannot tell a stalled allocation from another hang
-			return "", "", fmt.Errorf("child gave no answer within %v and no stack dump on SIGQUIT (machine overloaded?)", childTimeout)
+			return "", "", fmt.Errorf("child spinning (%.1fs CPU) and no stack dump on SIGQUIT", spent)
 		}
 		if where == "" {
 			where = "?? " + goroutine1(dump)
 		}
-		return "", fmt.Sprintf("%sno answer within %v (killed) at %s", kind, childTimeout, where), nil
+		return "", fmt.Sprintf("%sno answer after %.1fs of CPU (killed) at %s", kind, spent, where), nil
 	}
 }
 
@@ -381,4 +401,24 @@ func statmMiB(pid int) (vsize, rss int) {
 	var v, r int
 	fmt.Sscan(string(b), &v, &r)
 	return v * os.Getpagesize() >> 20, r * os.Getpagesize() >> 20
+}
+
+// cpuSeconds reads user+system CPU time of pid from /proc (100 ticks/s).
+func cpuSeconds(pid int) float64 {
+	b, err := os.ReadFile(fmt.Sprintf("/proc/%d/stat", pid))
+	if err != nil {
+		return 0
+	}
+	st := string(b)
+	if i := strings.LastIndex(st, ")"); i >= 0 {
+		st = st[i+1:]
+	}
+	f := strings.Fields(st) // f[0] = state, utime = field 14 of the line = f[11], stime = f[12]
+	if len(f) < 13 {
+		return 0
+	}
+	var u, sy float64
+	fmt.Sscan(f[11], &u)
+	fmt.Sscan(f[12], &sy)
+	return (u + sy) / 100
 }
